@@ -443,4 +443,38 @@ def normalize(tree, modname):
                     func, set(locs.get(q, [])))
                 n += inline.inline_temporaries(func, set(locs.get(q, [])))
         info["temporaries_inlined"] = n
+        if info.get("helpers_inlined") or n:
+            renumber(tree)
     return info
+
+
+def renumber(tree):
+    """source positions order statements for the rules (`a.lineno <
+    b.lineno`).  Inlined statements carry the position of the call they
+    replaced, so functions whose positions are no longer monotonic get
+    synthetic, strictly increasing positions; the real line is kept in
+    `_orig_lineno` for the reports."""
+    for func in [n for n in ast.walk(tree) if isinstance(n, FUNC)]:
+        order = []
+
+        def pre(node):
+            for c in ast.iter_child_nodes(node):
+                if hasattr(c, "lineno"):
+                    order.append(c)
+                pre(c)
+        pre(func)
+        stmts = [x for x in order if isinstance(x, ast.stmt)]
+        mono = all((a.lineno, a.col_offset) < (b.lineno, b.col_offset)
+                   for a, b in zip(stmts, stmts[1:]))
+        if mono:
+            continue
+        line = func.lineno
+        for i, node in enumerate(order):
+            if not hasattr(node, "_orig_lineno"):
+                node._orig_lineno = node.lineno
+            if isinstance(node, ast.stmt):
+                line += 1
+            node.lineno = line
+            node.end_lineno = line
+            node.col_offset = i
+            node.end_col_offset = i + 1
